@@ -123,9 +123,9 @@ theorem cell_replaceValue (d d' : Db) (cid : Nat) (k : Str) (row : Nat) (v : V) 
 /-! ### cif_loop_add_packet / cif_pktitr_update_packet: every value of the packet lands in its cell -/
 
 /-- packets are maps: their keys are pairwise distinct -/
-def keysDistinct : List (Str × V) → Prop
+def keysDistinct_sv : List (Str × V) → Prop
   | [] => True
-  | (k, _) :: es => (∀ e ∈ es, e.1 ≠ k) ∧ keysDistinct es
+  | (k, _) :: es => (∀ e ∈ es, e.1 ≠ k) ∧ keysDistinct_sv es
 
 theorem addValues_cells : ∀ (pkt : List (Str × V)) (d d' : Db) (cid ln row : Nat),
     addValues d cid ln row pkt = .ok d' →
@@ -226,7 +226,7 @@ theorem addValues_values : ∀ (pkt : List (Str × V)) (d d' : Db) (cid ln row :
                   exact Or.inr ⟨(k, v), List.mem_cons_self, h2⟩
         · exact Or.inr ⟨e, List.mem_cons_of_mem _ he, hwe⟩
 
-theorem updateValues_cells : ∀ (pkt : List (Str × V)) (d d' : Db) (it : Iter), keysDistinct pkt →
+theorem updateValues_cells : ∀ (pkt : List (Str × V)) (d d' : Db) (it : Iter), keysDistinct_sv pkt →
     updateValues d it pkt = .ok d' →
     (∀ e ∈ pkt, d'.cell it.cid e.1 it.prev.toNat = some e.2)
     ∧ ∀ k' row', (∀ e ∈ pkt, ¬(k' = e.1 ∧ row' = it.prev.toNat)) → d'.cell it.cid k' row' = d.cell it.cid k' row'
@@ -254,7 +254,7 @@ theorem updateValues_cells : ∀ (pkt : List (Str × V)) (d d' : Db) (it : Iter)
 
 /-! ### SET_ALL_VALUES_SQL (cif_container_set_value on an existing item, cif_loop_add_item) -/
 
-theorem mem_insertNat_self (x : Nat) : ∀ l : List Nat, x ∈ Db.insertNat x l
+theorem mem_insertNat_self_sv (x : Nat) : ∀ l : List Nat, x ∈ Db.insertNat x l
   | [] => by simp [Db.insertNat]
   | y :: ys => by
     unfold Db.insertNat
@@ -262,9 +262,9 @@ theorem mem_insertNat_self (x : Nat) : ∀ l : List Nat, x ∈ Db.insertNat x l
     · simp
     · split
       · rename_i h; simp only [beq_iff_eq] at h; simp [h]
-      · exact List.mem_cons_of_mem _ (mem_insertNat_self x ys)
+      · exact List.mem_cons_of_mem _ (mem_insertNat_self_sv x ys)
 
-theorem mem_insertNat_of_mem (x y : Nat) : ∀ l : List Nat, y ∈ l → y ∈ Db.insertNat x l
+theorem mem_insertNat_of_mem_sv (x y : Nat) : ∀ l : List Nat, y ∈ l → y ∈ Db.insertNat x l
   | [], h => by cases h
   | z :: zs, h => by
     unfold Db.insertNat
@@ -274,9 +274,9 @@ theorem mem_insertNat_of_mem (x y : Nat) : ∀ l : List Nat, y ∈ l → y ∈ D
       · exact h
       · rcases List.mem_cons.mp h with rfl | h'
         · simp
-        · exact List.mem_cons_of_mem _ (mem_insertNat_of_mem x y zs h')
+        · exact List.mem_cons_of_mem _ (mem_insertNat_of_mem_sv x y zs h')
 
-theorem mem_foldl_insertNat (l : List ValueRow) : ∀ (acc : List Nat) (w : ValueRow),
+theorem mem_foldl_insertNat_sv (l : List ValueRow) : ∀ (acc : List Nat) (w : ValueRow),
     (w ∈ l ∨ w.rowNum ∈ acc) → w.rowNum ∈ l.foldl (fun acc v => Db.insertNat v.rowNum acc) acc := by
   induction l with
   | nil => intro acc w h; rcases h with h | h; cases h; exact h
@@ -286,15 +286,15 @@ theorem mem_foldl_insertNat (l : List ValueRow) : ∀ (acc : List Nat) (w : Valu
     apply ih
     rcases h with h | h
     · rcases List.mem_cons.mp h with rfl | h'
-      · exact Or.inr (mem_insertNat_self _ _)
+      · exact Or.inr (mem_insertNat_self_sv _ _)
       · exact Or.inl h'
-    · exact Or.inr (mem_insertNat_of_mem _ _ _ h)
+    · exact Or.inr (mem_insertNat_of_mem_sv _ _ _ h)
 
 /-- a value row of an item of the loop has its row number among the loop's rows -/
 theorem mem_loopRows (d : Db) (cid ln : Nat) (w : ValueRow) (hw : w ∈ d.values) (hc : w.cid = cid)
     (hi : (d.loopItems cid ln).any (fun i => i.name == w.name) = true) : w.rowNum ∈ d.loopRows cid ln := by
   unfold Db.loopRows
-  apply mem_foldl_insertNat
+  apply mem_foldl_insertNat_sv
   left
   simp only [List.mem_filter, Bool.and_eq_true, beq_iff_eq]
   exact ⟨hw, hc, hi⟩
@@ -373,7 +373,7 @@ theorem setAllValues_all (d : Db) (cid : Nat) (k : Str) (v : V) (ln : Nat) (hl :
 
 /-! ### the reading statements deliver rows of the table -/
 
-theorem mem_insertByRow (x y : ValueRow) : ∀ l : List ValueRow, y ∈ Db.insertByRow x l → y = x ∨ y ∈ l
+theorem mem_insertByRow_sv (x y : ValueRow) : ∀ l : List ValueRow, y ∈ Db.insertByRow x l → y = x ∨ y ∈ l
   | [], h => by simp [Db.insertByRow] at h; exact Or.inl h
   | z :: zs, h => by
     unfold Db.insertByRow at h
@@ -383,29 +383,29 @@ theorem mem_insertByRow (x y : ValueRow) : ∀ l : List ValueRow, y ∈ Db.inser
       · exact Or.inr h
     · rcases List.mem_cons.mp h with h | h
       · exact Or.inr (by rw [h]; exact List.mem_cons_self)
-      · rcases mem_insertByRow x y zs h with h | h
+      · rcases mem_insertByRow_sv x y zs h with h | h
         · exact Or.inl h
         · exact Or.inr (List.mem_cons_of_mem _ h)
 
-theorem mem_foldr_insertByRow (l : List ValueRow) (y : ValueRow) (h : y ∈ l.foldr Db.insertByRow []) : y ∈ l := by
+theorem mem_foldr_insertByRow_sv (l : List ValueRow) (y : ValueRow) (h : y ∈ l.foldr Db.insertByRow []) : y ∈ l := by
   induction l with
   | nil => simp at h
   | cons a l ih =>
     simp only [List.foldr_cons] at h
-    rcases mem_insertByRow a y _ h with h | h
+    rcases mem_insertByRow_sv a y _ h with h | h
     · rw [h]; exact List.mem_cons_self
     · exact List.mem_cons_of_mem _ (ih h)
 
 /-- GET_VALUE_SQL returns rows of the table that belong to the item -/
 theorem mem_valuesOf (d : Db) (cid : Nat) (k : Str) (w : ValueRow) (h : w ∈ d.valuesOf cid k) :
     w ∈ d.values ∧ w.cid = cid ∧ w.name = k := by
-  have := mem_foldr_insertByRow _ w h
+  have := mem_foldr_insertByRow_sv _ w h
   simp only [List.mem_filter, Bool.and_eq_true, beq_iff_eq] at this
   exact ⟨this.1, this.2.1, this.2.2⟩
 
 /-- GET_LOOP_VALUES_SQL (what the packet iterator and cif_walk read) returns rows of the table -/
 theorem mem_loopValues (d : Db) (cid ln : Nat) (w : ValueRow) (h : w ∈ d.loopValues cid ln) : w ∈ d.values ∧ w.cid = cid := by
-  have := mem_foldr_insertByRow _ w h
+  have := mem_foldr_insertByRow_sv _ w h
   simp only [List.mem_filter, Bool.and_eq_true, beq_iff_eq] at this
   exact ⟨this.1, this.2.1⟩
 
@@ -456,7 +456,7 @@ theorem begin_db (s s1 : Store) (h : s.begin = some s1) : s1.db = s.db ∧ s1.au
   · simp only [Option.some.injEq] at h; subst h; exact ⟨rfl, by simp [Store.autocommit]⟩
   · cases h
 
-theorem commit_getD_db (s : Store) : (s.commit.getD s).db = s.db := by
+theorem commit_getD_db_sv (s : Store) : (s.commit.getD s).db = s.db := by
   unfold Store.commit; split <;> rfl
 
 theorem release_getD_db (s s0 : Store) (h : s.saves ≠ []) : (s.release.getD s0).db = s.db := by
@@ -478,7 +478,7 @@ theorem nest_ok {α} (s : Store) (body : Db → Except Code (Db × α)) (a : α)
       simp only [hb] at h ⊢
       simp only [Except.ok.injEq] at h
       subst h
-      exact ⟨d2, rfl, by simp [Store.commitNest, commit_getD_db]⟩
+      exact ⟨d2, rfl, by simp [Store.commitNest, commit_getD_db_sv]⟩
   · have hacf : s.autocommit = false := by simpa using hac
     simp only [hacf, Bool.false_eq_true, ↓reduceIte] at h ⊢
     have hsd : s.save.db = s.db := rfl
@@ -526,7 +526,7 @@ theorem setValue_existing_read (s : Store) (h : CH) (n : Name) (v : V) (l : LH) 
         { s with txn := some s.db, db := (s.db.setAllValues h.id n.key v).1 }, .ok ()) := by
     simp [setValue, hv, Store.begin, hac, setValueInner, hl]
   have hall : (setValue s h (some n) (some v)).1.db.AllVals h.id n.key v := by
-    rw [hres]; simp only [commit_getD_db]
+    rw [hres]; simp only [commit_getD_db_sv]
     exact (setAllValues_all s.db h.id n.key v ln hln).1
   exact ⟨by rw [hres], hall, getValue_of_allVals _ h n v hall⟩
 
@@ -660,7 +660,7 @@ theorem addPacket_read (s : Store) (l : LH) (pkt : List (Str × V)) (hok : (addP
 
 /-- **cif_pktitr_update_packet**: on success the current packet holds, for every item the update names, the value given;
     every other cell is unchanged -/
-theorem updatePacket_read (s : Store) (it : Iter) (pkt : List (Str × V)) (hd : keysDistinct pkt)
+theorem updatePacket_read (s : Store) (it : Iter) (pkt : List (Str × V)) (hd : keysDistinct_sv pkt)
     (hok : (updatePacket s it pkt).2 = .ok ()) :
     (∀ e ∈ pkt, (updatePacket s it pkt).1.db.cell it.cid e.1 it.prev.toNat = some e.2)
     ∧ ∀ k' row', (∀ e ∈ pkt, ¬(k' = e.1 ∧ row' = it.prev.toNat)) →
@@ -848,7 +848,7 @@ theorem setValue_new_read (s : Store) (h : CH) (n : Name) (v : V) (hv : n.valid 
     have hok2 : (addScalar { s with txn := some s.db } h n.key n.orig v).2 = .ok () := by rw [hr]
     have := addScalar_read _ h n.key n.orig v hok2
     rw [hr] at this
-    simp only [commit_getD_db]
+    simp only [commit_getD_db_sv]
     exact this
 
 theorem mem_insertByRow_self (x : ValueRow) : ∀ l : List ValueRow, x ∈ Db.insertByRow x l
@@ -869,7 +869,7 @@ theorem mem_insertByRow_of_mem (x y : ValueRow) : ∀ l : List ValueRow, y ∈ l
       · simp
       · exact List.mem_cons_of_mem _ (mem_insertByRow_of_mem x y zs h')
 
-theorem mem_foldr_insertByRow_of_mem (l : List ValueRow) (y : ValueRow) (h : y ∈ l) : y ∈ l.foldr Db.insertByRow [] := by
+theorem mem_foldr_insertByRow_of_mem_sv (l : List ValueRow) (y : ValueRow) (h : y ∈ l) : y ∈ l.foldr Db.insertByRow [] := by
   induction l with
   | nil => cases h
   | cons a l ih =>
@@ -890,7 +890,7 @@ theorem valuesOf_ne_nil (d : Db) (cid : Nat) (k : Str) (row : Nat) (v : V) (h : 
     simp only [Bool.and_eq_true, beq_iff_eq] at hp
     have : w ∈ d.valuesOf cid k := by
       unfold Db.valuesOf
-      apply mem_foldr_insertByRow_of_mem
+      apply mem_foldr_insertByRow_of_mem_sv
       simp only [List.mem_filter, Bool.and_eq_true, beq_iff_eq]
       exact ⟨hm, hp.1.1, hp.1.2⟩
     intro he; rw [he] at this; cases this
@@ -927,7 +927,7 @@ theorem setValue_existing_read_strong (s : Store) (h : CH) (n : Name) (v : V) (l
         { s with txn := some s.db, db := (s.db.setAllValues h.id n.key v).1 }, .ok ()) := by
     simp [setValue, hv, Store.begin, hac, setValueInner, hl]
   have hdb : (setValue s h (some n) (some v)).1.db = (s.db.setAllValues h.id n.key v).1 := by
-    rw [hres]; simp only [commit_getD_db]
+    rw [hres]; simp only [commit_getD_db_sv]
   obtain ⟨hall, hcells, _⟩ := setAllValues_all s.db h.id n.key v ln hln
   refine ⟨ln, hln, by rw [hres], ?_, ?_, ?_, ?_⟩
   · intro w hw; rw [hdb] at hw; exact hall w hw
